@@ -170,6 +170,24 @@ Definition pow2Q (w : Z) : Q :=
   end.
 Definition weight_to_prob (w : Z) : Q := (pow2Q w / (1 + pow2Q w))%Q.
 
+(* match_probability may be NULL.  `NULL >= t` is not TRUE, so a NULL row never passes a threshold
+   filter, whatever the threshold (also 0); when no threshold is given there is no WHERE clause at
+   all and the row stays. *)
+Definition keep_edge_n (thr : option Q) (e : Z * Z * option Q) : bool :=
+  match thr, snd e with
+  | None, _ => true
+  | Some t, Some p => Qle_bool t p
+  | Some _, None => false
+  end.
+Definition thr_edges_n (thr : option Q) (edges : list (Z * Z * option Q)) : list (Z * Z) :=
+  map fst (filter (keep_edge_n thr) edges).
+Definition cluster_at_threshold_n (nodes : list Z) (edges : list (Z * Z * option Q)) (thr : option Q)
+  : option (list (Z * Z)) :=
+  solve_cc nodes (thr_edges_n thr edges).
+(* the rows with a non-NULL probability *)
+Definition non_null (edges : list (Z * Z * option Q)) : list (Z * Z * Q) :=
+  flat_map (fun e => match snd e with Some p => [(fst e, p)] | None => [] end) edges.
+
 (* match-weight view of the threshold filter: keep an edge iff its Bayes factor p/(1-p) is at
    least 2^w, i.e. its match weight log2(p/(1-p)) is at least w; p = 1 has match weight +inf *)
 Definition keep_edge_weight (w : Z) (e : Z * Z * Q) : bool :=
